@@ -9,6 +9,7 @@ import (
 	"fmt"
 	"os"
 	"strings"
+	"sync"
 	"time"
 
 	"github.com/fiorix/go-diameter/diam"
@@ -26,6 +27,10 @@ type RatingCase struct {
 	Sub      string   `json:"sub"`
 	Consumed []int    `json:"consumed"`
 	Quota    []int    `json:"quota"`
+	// Batch: the member cases are sent at the same moment, each over its own connection and for its own
+	// subscriber (a rating server serves many subscribers at once); every member is then judged like a single case
+	Batch  []RatingCase `json:"batch"`
+	Rounds int          `json:"rounds"`
 }
 
 var subNum = map[string]charging_datatype.RequestSubType{
@@ -52,7 +57,7 @@ func RunRating(env *Env, prefix, in, out string) error {
 	cli := NewDiamClient(fmt.Sprintf("127.0.0.1:%d", env.RfPort), env.Pem, env.Key, "SUA")
 	defer cli.Close()
 	supi := "imsi-" + prefix + "1"
-	ask := func(sub string, consumed, quota uint64) map[string]any {
+	askAs := func(cli *DiamClient, supi string, sub string, consumed, quota uint64) map[string]any {
 		ans, why := cli.Exchange(charging_code.ServiceUsageMessage, charging_code.Re_interface,
 			func(realm, host datatype.DiameterIdentity) any {
 				return &charging_datatype.ServiceUsageRequest{
@@ -78,7 +83,60 @@ func RunRating(env *Env, prefix, in, out string) error {
 		}
 		return res
 	}
+	ask := func(sub string, consumed, quota uint64) map[string]any { return askAs(cli, supi, sub, consumed, quota) }
+	seq := 0
+	for _, c := range cases {
+		if len(c.Batch) == 0 {
+			continue
+		}
+		n := len(c.Batch)
+		clis := make([]*DiamClient, n)
+		supis := make([]string, n)
+		env.ResetState(0)
+		for k, m := range c.Batch {
+			clis[k] = NewDiamClient(fmt.Sprintf("127.0.0.1:%d", env.RfPort), env.Pem, env.Key, "SUA")
+			supis[k] = fmt.Sprintf("imsi-%s%02d", prefix, k+10)
+			env.PutAccount(supis[k], 1, "1000", strings.Join(m.Cost, ""))
+		}
+		rounds := c.Rounds
+		if rounds <= 0 {
+			rounds = 1
+		}
+		for r := 0; r < rounds; r++ {
+			results := make([]map[string]any, n)
+			start := make(chan struct{})
+			var wg sync.WaitGroup
+			for k, m := range c.Batch {
+				wg.Add(1)
+				go func(k int, m RatingCase) {
+					defer wg.Done()
+					<-start
+					results[k] = askAs(clis[k], supis[k], m.Sub, BigOfLimbs(m.Consumed).Uint64(), BigOfLimbs(m.Quota).Uint64())
+				}(k, m)
+			}
+			close(start)
+			wg.Wait()
+			for k, m := range c.Batch {
+				res := results[k]
+				res["probe"] = askAs(clis[k], supis[k], "debit", 1, 0)
+				res["client"] = map[string]any{"got": false, "cost": []int{}, "skipped": true}
+				b, _ := json.Marshal(map[string]any{
+					"trace": c.ID, "seq": seq, "action": "sur", "concurrent": true,
+					"args": map[string]any{"cost": m.Cost, "sub": m.Sub, "consumed": m.Consumed, "quota": m.Quota}, "result": res,
+				})
+				seq++
+				_, _ = w.Write(b)
+				_ = w.WriteByte('\n')
+			}
+		}
+		for _, cl := range clis {
+			cl.Close()
+		}
+	}
 	for i, c := range cases {
+		if len(c.Batch) > 0 {
+			continue
+		}
 		env.ResetState(0)
 		env.PutAccount(supi, 1, "1000", strings.Join(c.Cost, ""))
 		res := ask(c.Sub, BigOfLimbs(c.Consumed).Uint64(), BigOfLimbs(c.Quota).Uint64())
